@@ -77,6 +77,21 @@ pub fn run_bb(args: &Args) {
                 gbb(|| BitBoard::from(Square::index(i as usize % 64))), jbool(guard(|| a == b))
             ),
         );
+        // the two Debug renderings (no listed property speaks about them; judged as EXT)
+        if i % 4 == 0 {
+            let pretty = guard(|| format!("{:#?}", a));
+            let hex = guard(|| format!("{:?}", a));
+            sh.emit(
+                "bb_fmt",
+                &format!(
+                    "\"a\":{},\"k\":\"{}\",\"pretty\":{},\"hex\":{}",
+                    jbb(a),
+                    if pretty.is_some() && hex.is_some() { "ok" } else { "panic" },
+                    jcps(pretty.as_deref().unwrap_or("")),
+                    jcps(hex.as_deref().unwrap_or(""))
+                ),
+            );
+        }
         // iteration: members in order, exact remaining length before every step
         let it = guard(|| {
             let mut it = a.iter();
@@ -135,6 +150,47 @@ pub fn run_bb(args: &Args) {
             files.join(","), ranks.join(","), adj.join(",")
         ),
     );
+    // the bitboard! macro: the drawing (rank 8 first) next to the value it expands to
+    macro_rules! drawn {
+        ($($t:tt)*) => {
+            (stringify!($($t)*).replace(' ', "").replace('\n', ""), cozy_chess::bitboard! { $($t)* })
+        };
+    }
+    let drawings: Vec<(String, BitBoard)> = vec![
+        drawn! {
+            X . . . . . . .
+            . . . . . . . .
+            . . . . . . X .
+            . . . . . . . .
+            . . . X . . . .
+            . . . . . . . .
+            . X . . . . . .
+            . . . . . . . X
+        },
+        drawn! {
+            . . . X . . . .
+            . . . X . . . .
+            . . . X . . . .
+            . . . X . . . .
+            . . . X . . . .
+            X X X . X X X X
+            . . . X . . . .
+            . . . X . . . .
+        },
+        drawn! {
+            X X X X X X X X
+            X . . . . . . .
+            X . X X X X . .
+            X . X . . X . .
+            X . X . . . . .
+            X . X X X X X X
+            X . . . . . . .
+            X X X X X X X .
+        },
+    ];
+    for (d, v) in drawings {
+        sh.emit("bb_macro", &format!("\"drawing\":{},\"v\":{}", jcps(&d), jbb(v)));
+    }
     println!("{}", sh.finish());
 }
 
